@@ -33,6 +33,7 @@ fn main() {
         "c03" => c03::run(&args),
         "c04" => c04::run(&args),
         "c05" => c05::run(&args),
+        "c05_decoders" => c05::decoders(&args),
         "c06" => c06::run(&args),
         "c07" => c07::run(&args),
         "c22" => c22::run(&args),
